@@ -36,28 +36,55 @@ def enc_item(it):
     return "s %s %s %s" % (it[1], f, enc(it[3]))
 
 
+def enc_addr(a):
+    return ":".join(str(x) for x in a)
+
+
+def enc_items(items):
+    return "%d %s" % (len(items), " ".join(enc_item(i) for i in items))
+
+
+def enc_op(o):
+    k = o[0]
+    if k in ("set", "addo", "addt"):
+        return "%s %s %s" % (k, enc(o[1]), enc(o[2]))
+    if k == "del":
+        return "del %s" % enc(o[1])
+    if k in ("inso", "inst"):
+        return "%s %s %s %d" % (k, enc(o[1]), enc(o[2]), o[3])
+    if k == "delr":
+        return "delr %d" % o[1]
+    # selector-side operations (two spellings of the implementation map to one model operation)
+    if k in ("ssel", "xsel"):
+        return "rep %s %d %s" % (enc_addr(o[1]), o[2], enc_item(o[3]))
+    if k in ("lsel", "rsel"):
+        return "ltx %s %s" % (enc_addr(o[1]), enc_items(o[2]))
+    if k == "asel":
+        return "app %s %s" % (enc_addr(o[1]), enc_item(o[2]))
+    if k == "dsel":
+        return "dli %s %d" % (enc_addr(o[1]), o[2])
+    if k == "istyle":
+        return "ins %s %s" % ("-" if o[2] is None else o[2], enc_items(o[1]))
+    if k == "minner":
+        return "inn %d %s %s" % (o[1], "-" if o[3] is None else o[3], enc_items(o[2]))
+    if k == "dstyle":
+        return "dst %s" % enc_addr(o[1])
+    raise ValueError(o)
+
+
 def enc_case(start, ops):
     out = []
     for st in start:
         if st[0] == "N":
             out.append("N %s %s" % (enc(st[1]), enc(st[2])))
         elif st[0] == "S":
-            out.append("S %d %s" % (len(st[1]), " ".join(enc_item(i) for i in st[1])))
+            out.append("S " + enc_items(st[1]))
         elif st[0] == "M":
-            out.append("M %d %s" % (len(st[1]), " ".join("%d %s" % (len(r), " ".join(enc_item(i) for i in r))
-                                                         for r in st[1])))
+            out.append("M %d %s" % (len(st[1]), " ".join(enc_items(r) for r in st[1])))
         else:
             out.append(st[0])
     out.append("|")
-    for o in ops:
-        if o[0] in ("set", "addo", "addt"):
-            out.append("%s %s %s" % (o[0], enc(o[1]), enc(o[2])))
-        elif o[0] == "del":
-            out.append("del %s" % enc(o[1]))
-        elif o[0] in ("inso", "inst"):
-            out.append("%s %s %s %d" % (o[0], enc(o[1]), enc(o[2]), o[3]))
-        else:
-            out.append("delr %d" % o[1])
+    out += [enc_op(o) for o in ops]
     return " ".join(out)
 
 
@@ -73,8 +100,26 @@ def item_text(it):
     return {"a": "[%s]" % t, "n": ":not(%s)" % t}.get(k, t)
 
 
-def style_text(items):
-    return ", ".join(item_text(i) for i in items) + " {left: 0}"
+# declaration blocks: a rule set with declarations, an empty one, a comment-only one, one whose only declaration is
+# unknown to the profiles, one whose only declaration is dropped by the parser
+BODIES = {"decl": "{left: 0}", "empty": "{}", "comment": "{/*c*/}", "unknown": "{foo: 1}", "dropped": "{left: }"}
+
+
+def style_text(items, body="decl"):
+    return ", ".join(item_text(i) for i in items) + " " + BODIES[body]
+
+
+def bodies_of(st):
+    """body kinds of a statement: ("S", items[, body]) / ("M", rules[, bodies])"""
+    if st[0] == "S":
+        return [st[2] if len(st) > 2 else "decl"]
+    if st[0] == "M":
+        return list(st[2]) if len(st) > 2 else ["decl"] * len(st[1])
+    return []
+
+
+def plain_bodies(start):
+    return all(b == "decl" for st in start for b in bodies_of(st))
 
 
 def start_text(start):
@@ -83,9 +128,9 @@ def start_text(start):
         if st[0] == "N":
             out.append('@namespace %s"%s";' % (st[1] + " " if st[1] else "", st[2]))
         elif st[0] == "S":
-            out.append(style_text(st[1]))
+            out.append(style_text(st[1], bodies_of(st)[0]))
         elif st[0] == "M":
-            out.append("@media all {" + " ".join(style_text(r) for r in st[1]) + "}")
+            out.append("@media all {" + " ".join(style_text(r, b) for r, b in zip(st[1], bodies_of(st))) + "}")
         elif st[0] == "H":
             out.append('@charset "utf-8";')
         else:
@@ -146,50 +191,97 @@ def sheet_out(sheet):
     return " ".join(out)
 
 
-def _forms(sheet):
+def _style_rules(sheet, written_only=False):
+    """rule sets in document order (top level and inside @media); written_only: those the serializer writes under
+    the preferences in force, as the rule's own cssText says"""
     out = []
     for r in sheet.cssRules:
-        rs = [r] if r.type == r.STYLE_RULE else \
-            ([x for x in r.cssRules if x.type == x.STYLE_RULE] if r.type == r.MEDIA_RULE else [])
-        for x in rs:
-            out.append("[" + ",".join(s.selectorText for s in x.selectorList if s.selectorText != ".k") + "]")
-    return "".join(out)
+        if r.type == r.STYLE_RULE:
+            rs = [r]
+        elif r.type == r.MEDIA_RULE and (not written_only or r.cssText):
+            rs = [x for x in r.cssRules if x.type == x.STYLE_RULE]
+        else:
+            rs = []
+        out += [x for x in rs if not written_only or x.cssText]
+    return out
 
 
-def _obs(sheet):
-    """everything the oracles need, read from the implementation only"""
+def _forms(sheet):
+    return "".join("[" + ",".join(s.selectorText for s in x.selectorList if s.selectorText != ".k") + "]"
+                   for x in _style_rules(sheet))
+
+
+def _pairs(rules):
+    out = []
+    for x in rules:
+        out += [p for p in _sel_items(x.selectorList) if not p.startswith("A:")]
+    return out
+
+
+# preference rows that decide which @namespace rules / rule sets are written
+PREF_ROWS = [("default", {})] + \
+    [("used=%d,empty=%d,comments=%d" % (u, e, c),
+      {"keepUsedNamespaceRulesOnly": bool(u), "keepEmptyRules": bool(e), "keepComments": bool(c)})
+     for u in (0, 1) for e in (0, 1) for c in (1, 0) if (u, e, c) != (0, 0, 1)] + [("minified", "useMinified")]
+
+
+def _roundtrip(sheet, row):
+    """(pairs of the rule sets that are written, pairs after re-parsing the text, text, re-parsed sheet)
+    under one preference row; the preferences are put back"""
     import css_parser
+    prefs = css_parser.ser.prefs
+    try:
+        if row == "useMinified":
+            prefs.useMinified()
+        else:
+            for k, v in row.items():
+                setattr(prefs, k, v)
+        written = _pairs(_style_rules(sheet, written_only=True))
+        text = sheet.cssText
+        if isinstance(text, bytes):
+            text = text.decode("utf-8")
+    finally:
+        prefs.useDefaults()
+    re_sheet = css_parser.parseString(text)
+    return written, _pairs(_style_rules(re_sheet)), text, re_sheet
+
+
+def _obs(sheet, rows=()):
+    """everything the oracles need, read from the implementation only"""
     rules = []
     for r in sheet.cssRules:
         if r.type == r.NAMESPACE_RULE:
             rules.append((r.prefix, r.namespaceURI, r.cssText))
-    pairs = []
-    for r in sheet.cssRules:
-        rs = [r] if r.type == r.STYLE_RULE else \
-            ([x for x in r.cssRules if x.type == x.STYLE_RULE] if r.type == r.MEDIA_RULE else [])
-        for x in rs:
-            pairs += [p for p in _sel_items(x.selectorList) if not p.startswith("A:")]
-    text = sheet.cssText
-    if isinstance(text, bytes):
-        text = text.decode("utf-8")
-    re_sheet = css_parser.parseString(text)
-    re_pairs = []
-    for r in re_sheet.cssRules:
-        rs = [r] if r.type == r.STYLE_RULE else \
-            ([x for x in r.cssRules if x.type == x.STYLE_RULE] if r.type == r.MEDIA_RULE else [])
-        for x in rs:
-            re_pairs += [p for p in _sel_items(x.selectorList) if not p.startswith("A:")]
-    return {"rules": rules, "view": list(sheet.namespaces.items()), "pairs": pairs, "re_pairs": re_pairs,
-            "others": [r.type for r in sheet.cssRules if r.type != r.NAMESPACE_RULE],
-            "text": text, "re_state": sheet_out(re_sheet)}
+    written, re_pairs, text, re_sheet = _roundtrip(sheet, {})
+    o = {"rules": rules, "view": list(sheet.namespaces.items()), "pairs": _pairs(_style_rules(sheet)),
+         "written": written, "re_pairs": re_pairs,
+         "others": [r.type for r in sheet.cssRules if r.type != r.NAMESPACE_RULE],
+         "re_state": sheet_out(re_sheet), "rows": []}
+    for name, row in rows:
+        w, rp, _, _ = _roundtrip(sheet, row)
+        o["rows"].append((name, w, rp))
+    return o
 
 
-def _state(oc, sheet):
-    o = _obs(sheet)
+def _state(oc, sheet, rows=()):
+    o = _obs(sheet, rows)
     line = "%s # %s # %s # %s # %s" % (oc, sheet_out(sheet), ",".join("%s=%s" % kv for kv in o["view"]),
                                        _forms(sheet), o["re_state"])
-    del o["re_state"], o["text"]      # only needed for the line; keeps the result lists small
+    del o["re_state"]      # only needed for the line; keeps the result lists small
     return line, o
+
+
+def _style_at(sheet, a):
+    """the rule set at address ("t", r) / ("m", r, j) or None"""
+    rules = sheet.cssRules
+    if a[1] >= len(rules):
+        return None
+    r = rules[a[1]]
+    if a[0] == "t":
+        return r if r.type == r.STYLE_RULE else None
+    if r.type != r.MEDIA_RULE or a[2] >= len(r.cssRules):
+        return None
+    return r.cssRules[a[2]]
 
 
 def apply_op(sheet, o):
@@ -212,28 +304,79 @@ def apply_op(sheet, o):
             sheet.deleteRule(o[1])
         else:
             return "skip"
+    elif k in ("ssel", "xsel", "lsel", "rsel", "asel", "dsel"):
+        rule = _style_at(sheet, o[1])
+        if rule is None:
+            return "skip"
+        sl = rule.selectorList
+        if k in ("ssel", "xsel", "dsel") and o[2] >= len(sl):
+            return "skip"
+        if k == "ssel":
+            sl[o[2]].selectorText = item_text(o[3])          # the Selector object stays in the list
+        elif k == "xsel":
+            sl[o[2]] = item_text(o[3])
+        elif k == "lsel":
+            sl.selectorText = ", ".join(item_text(i) for i in o[2])
+        elif k == "rsel":
+            rule.selectorText = ", ".join(item_text(i) for i in o[2])
+        elif k == "asel":
+            sl.appendSelector(item_text(o[2]))
+        elif len(sl) < 2:
+            return "skip"
+        else:
+            del sl[o[2]]
+    elif k == "istyle":
+        if o[2] is None:
+            sheet.add(style_text(o[1]))
+        else:
+            sheet.insertRule(style_text(o[1]), o[2])
+    elif k == "minner":
+        if o[1] >= len(sheet.cssRules) or sheet.cssRules[o[1]].type != sheet.cssRules[o[1]].MEDIA_RULE:
+            return "skip"
+        m = sheet.cssRules[o[1]]
+        if o[3] is None:
+            m.add(style_text(o[2]))
+        else:
+            m.insertRule(style_text(o[2]), o[3])
+    elif k == "dstyle":
+        if _style_at(sheet, o[1]) is None:
+            return "skip"
+        if o[1][0] == "t":
+            sheet.deleteRule(o[1][1])
+        else:
+            sheet.cssRules[o[1][1]].deleteRule(o[1][2])
+    else:
+        raise ValueError(o)
     return "ok"
 
 
 def impl_run(case):
-    """-> (list of canonical state lines, list of observation dicts) ; first entry = after the parse"""
+    """-> (list of canonical state lines, list of observation dicts) ; first entry = after the parse.
+    case = (start, ops[, rowsel]): rowsel "all" = every preference row on every state, an int = that row on the
+    last state"""
     import logging
     import css_parser
     css_parser.log.setLevel(logging.FATAL)
-    start, ops = case
+    start, ops = case[0], case[1]
+    rowsel = case[2] if len(case) > 2 else None
+    all_rows = PREF_ROWS[1:] if rowsel == "all" else ()
     try:
         css_parser.log.raiseExceptions = True
+        css_parser.ser.prefs.useDefaults()
         sheet = css_parser.parseString(start_text(start))
         lines, obs = [], []
-        l, o = _state("ok", sheet)
+        l, o = _state("ok", sheet, all_rows or
+                      ([PREF_ROWS[1 + rowsel % (len(PREF_ROWS) - 1)]] if isinstance(rowsel, int) and not ops else ()))
         lines.append(l)
         obs.append(o)
-        for op in ops:
+        for n, op in enumerate(ops):
             try:
                 oc = apply_op(sheet, op)
             except Exception as e:  # noqa
                 oc = type(e).__name__
-            l, o = _state(oc, sheet)
+            last = n == len(ops) - 1
+            l, o = _state(oc, sheet, all_rows or
+                          ([PREF_ROWS[1 + rowsel % (len(PREF_ROWS) - 1)]] if isinstance(rowsel, int) and last else ()))
             o["outcome"] = oc
             lines.append(l)
             obs.append(o)
@@ -242,13 +385,39 @@ def impl_run(case):
         return ["EXC %s %s" % (type(e).__name__, str(e)[:200])], []
     finally:
         css_parser.log.raiseExceptions = True
+        css_parser.ser.prefs.useDefaults()
 
 
 # ----------------------------------------------------------------------------------------------- the property, executable
+def resolve_items(decl, items):
+    """pairs the property demands for selectors written as `items` when `decl` maps prefixes to URIs ('' = default
+    namespace): unprefixed type/universal selectors take the default namespace, attributes never; None when a
+    prefix is undeclared (the selector must be rejected)"""
+    got = []
+    for it in items:
+        if it[0] == "o":
+            continue
+        _, k, f, n = it
+        if k == "a" and f in ("-", "e"):
+            continue
+        if f == "*":
+            u = "ANY"
+        elif f == "e":
+            u = "''"
+        elif f == "-":
+            u = "'%s'" % decl[""] if "" in decl else "None"
+        elif f[2:] in decl:
+            u = "'%s'" % decl[f[2:]]
+        else:
+            return None
+        got.append("%s:%s:%s" % (k, u, n))
+    return got
+
+
 def spec_pairs(start):
     """pairs the property demands after parsing `start` (CSS namespaces: a later declaration of a prefix replaces
-    the earlier one; all declarations precede the selectors; unprefixed type/universal selectors take the default
-    namespace, attributes never; a rule with an undeclared prefix is rejected as a whole)"""
+    the earlier one; all declarations precede the selectors; a rule with an undeclared prefix is rejected as a
+    whole)"""
     decl, seen_body, out = {}, False, []
     for st in start:
         if st[0] == "N" and not seen_body:
@@ -256,27 +425,7 @@ def spec_pairs(start):
         elif st[0] in ("S", "M"):
             seen_body = True
             for items in ([st[1]] if st[0] == "S" else st[1]):
-                got, ok = [], True
-                for it in items:
-                    if it[0] == "o":
-                        continue
-                    _, k, f, n = it
-                    if k == "a" and f in ("-", "e"):
-                        continue
-                    if f == "*":
-                        u = "ANY"
-                    elif f == "e":
-                        u = "''"
-                    elif f == "-":
-                        u = "'%s'" % decl[""] if "" in decl else "None"
-                    elif f[2:] in decl:
-                        u = "'%s'" % decl[f[2:]]
-                    else:
-                        ok = False
-                        break
-                    got.append("%s:%s:%s" % (k, u, n))
-                if ok:
-                    out += got
+                out += resolve_items(decl, items) or []
     return out
 
 
@@ -297,7 +446,7 @@ def features(o):
     return sorted(set(f))
 
 
-def explained(o):
+def explained(o, pairs):
     """the re-parsed pairs that the two spelling gaps alone would produce: an unbound pair or a URI without any
     prefix is printed '|x' (-> ''), an attribute whose URI has only the default prefix (or none) is printed bare"""
     view = dict(o["view"])
@@ -306,7 +455,7 @@ def explained(o):
     for p, u in o["view"]:
         byuri.setdefault(u, []).append(p)
     out = []
-    for pr in o["pairs"]:
+    for pr in pairs:
         k, u, n = pr.split(":", 2)
         if u == "None" and default:
             u = "''"
@@ -339,9 +488,28 @@ def effective_ok(o):
     return None
 
 
+NS_OPS = ("set", "del", "addo", "inso", "addt", "inst", "delr")
+
+
+def op_items(op):
+    """the selectors a selector-side operation writes"""
+    k = op[0]
+    if k in ("ssel", "xsel"):
+        return [op[3]]
+    if k in ("lsel", "rsel"):
+        return list(op[2])
+    if k == "asel":
+        return [op[2]]
+    if k == "istyle":
+        return list(op[1])
+    if k == "minner":
+        return list(op[2])
+    return []
+
+
 def oracle(case, obs):
     """yields (what, step index, feature list) for every clause that fails on the implementation"""
-    start, ops = case
+    start, ops = case[0], case[1]
     if not obs:
         yield ("parsing the start sheet raised", 0, [])
         return
@@ -353,22 +521,40 @@ def oracle(case, obs):
         feats = features(o)
         if i > 0:
             op = ops[i - 1]
-            before = dict(obs[i - 1]["view"])
-            if op[0] in ("addo", "inso") and op[1] in before and before[op[1]] != op[2] and \
-                    o["outcome"] == "NoModificationAllowedErr":
-                redeclared = True     # the open finding: _cleanNamespaces refused half-way, rule left inserted
-            if o["others"] != obs[i - 1]["others"]:
-                yield ("a namespace operation added or removed a rule that is not an @namespace rule", i, feats)
-            if op[0] == "del" and o["outcome"] == "ok":
-                b, a = [r[:2] for r in obs[i - 1]["rules"]], [r[:2] for r in o["rules"]]
-                gone = [r for r in b if b.count(r) > a.count(r)]
-                if len(a) != len(b) - 1 or not gone or gone[0][0] != op[1]:
-                    yield ("del sheet.namespaces[p] succeeded without removing an @namespace rule of that prefix", i,
-                           feats)
-            if o["pairs"] != obs[i - 1]["pairs"]:
-                yield ("a namespace operation changed the (uri, name) pairs of a selector", i, feats)
-            used = set(p.split(":", 2)[1][1:-1] for p in obs[i - 1]["pairs"] if p.split(":", 2)[1].startswith("'"))
-            decl_before = set(u for _, u, _ in obs[i - 1]["rules"])
+            prev = obs[i - 1]
+            before = dict(prev["view"])
+            if op[0] in NS_OPS:
+                if op[0] in ("addo", "inso") and op[1] in before and before[op[1]] != op[2] and \
+                        o["outcome"] == "NoModificationAllowedErr":
+                    redeclared = True     # the open finding: _cleanNamespaces refused half-way, rule left inserted
+                if o["others"] != prev["others"]:
+                    yield ("a namespace operation added or removed a rule that is not an @namespace rule", i, feats)
+                if op[0] == "del" and o["outcome"] == "ok":
+                    b, a = [r[:2] for r in prev["rules"]], [r[:2] for r in o["rules"]]
+                    gone = [r for r in b if b.count(r) > a.count(r)]
+                    if len(a) != len(b) - 1 or not gone or gone[0][0] != op[1]:
+                        yield ("del sheet.namespaces[p] succeeded without removing an @namespace rule of that prefix",
+                               i, feats)
+                if o["pairs"] != prev["pairs"]:
+                    yield ("a namespace operation changed the (uri, name) pairs of a selector", i, feats)
+            else:
+                # selector-side operation: new selectors are bound through the mapping in force, or rejected
+                wanted = resolve_items(before, op_items(op))
+                if o["rules"] != prev["rules"]:
+                    yield ("a selector operation changed the @namespace rules", i, feats)
+                if o["outcome"] != "ok":
+                    if o["pairs"] != prev["pairs"]:
+                        yield ("a rejected or skipped selector operation changed the pairs", i, feats)
+                elif wanted is None:
+                    yield ("a selector with an undeclared prefix was accepted", i, feats)
+                else:
+                    odd = [p for p in o["pairs"] if p not in prev["pairs"] and p not in wanted]
+                    lost = [p for p in wanted if p not in o["pairs"]]
+                    if odd or lost:
+                        yield ("a new selector is not stored with the URI its prefix denotes (unexpected %s, missing %s)"
+                               % (odd, lost), i, feats)
+            used = set(p.split(":", 2)[1][1:-1] for p in prev["pairs"] if p.split(":", 2)[1].startswith("'"))
+            decl_before = set(u for _, u, _ in prev["rules"])
             decl_after = set(u for _, u, _ in o["rules"])
             gone = (used & decl_before) - decl_after
             if gone:
@@ -379,6 +565,12 @@ def oracle(case, obs):
                 yield ("operation raised %s" % o["outcome"], i, feats)
         if redeclared:
             feats = feats + ["after-redeclare-raised-halfway"]
+        declared = set(u for _, u, _ in o["rules"])
+        loose = sorted(set(p.split(":", 2)[1] for p in o["pairs"]
+                           if p.split(":", 2)[1].startswith("'") and p.split(":", 2)[1] != "''"
+                           and p.split(":", 2)[1][1:-1] not in declared))
+        if loose:
+            yield ("a selector is bound to a URI that no @namespace rule declares (%s)" % loose, i, feats)
         for p, u, text in o["rules"]:
             m = re.fullmatch(r'@namespace (?:/\*c\*/ )?(?:([A-Za-z0-9_-]+) )?"([^"]*)";', text)
             if not m or (m.group(1) or "") != p or m.group(2) != u:
@@ -386,10 +578,13 @@ def oracle(case, obs):
         e = effective_ok(o)
         if e:
             yield ("sheet.namespaces differs from the effective @namespace rules: " + e, i, feats)
-        if o["re_pairs"] != o["pairs"]:
-            if explained(o) != o["re_pairs"]:
-                feats = feats + ["unexplained"]
-            yield ("re-parsed pairs differ (stored %s, re-parsed %s)" % (o["pairs"], o["re_pairs"]), i, feats)
+        # the serialised sheet re-parses to the same pairs (of the rule sets that are written), under the default
+        # preferences and under every preference row that decides which @namespace rules / rule sets are written
+        for name, written, re_pairs in [("default", o["written"], o["re_pairs"])] + list(o["rows"]):
+            if re_pairs != written:
+                f2 = feats + (["unexplained"] if explained(o, written) != re_pairs else [])
+                yield ("re-parsed pairs differ (preferences %s: written %s, re-parsed %s)" % (name, written, re_pairs),
+                       i, f2)
 
 
 def _short(what):
@@ -459,6 +654,13 @@ def start_sheets(thorough):
             kind2 = "tuan"[(k // 4) % 4]
             only2 = [("s", kind2, "p:" + p, "*" if kind2 == "u" else "y") for p in pref]
             variants.append([("C",)] + ns + [("M", [only2])])
+            # rule sets without (kept) declarations as the sole users of a prefix: what is written depends on the
+            # serializer preferences (keepEmptyRules, keepComments, keepUsedNamespaceRulesOnly)
+            body = ["empty", "comment", "unknown", "dropped"][k % 4]
+            variants.append(ns + [("S", [("s", "t", "e", "b")]), ("S", only, body)])
+            variants.append(ns + [("S", [("s", "t", "e", "b")]), ("M", [only2, [("s", "t", "-", "e")]],
+                                                                   [["comment", "empty", "unknown", "dropped"][k % 4],
+                                                                    "decl"])])
         if k % 5 == 0:
             variants.append([("H",)] + ns + [("S", b)])
         if k % 7 == 0:   # undeclared prefix: the rule must be rejected; declaration after a rule set: ignored
@@ -482,45 +684,131 @@ def op_alphabet(small):
     return ops
 
 
+def addresses(start):
+    """addresses of the rule sets of the parsed start sheet: (top-level addresses, media rule indices, inner ones)"""
+    import logging
+    import css_parser
+    css_parser.log.setLevel(logging.FATAL)
+    try:
+        sheet = css_parser.parseString(start_text(start))
+    except Exception:  # noqa
+        return [], [], []
+    top, med, inner = [], [], []
+    for r, rule in enumerate(sheet.cssRules):
+        if rule.type == rule.STYLE_RULE:
+            top.append(("t", r))
+        elif rule.type == rule.MEDIA_RULE:
+            med.append(r)
+            inner += [("m", r, j) for j in range(len(rule.cssRules))]
+    return top, med, inner
+
+
+def T(kind, form, name):
+    return ("s", kind, form, name)
+
+
+def sel_alphabet(start):
+    """selector-side operations for one start sheet: in-place re-target of a Selector, list level edits, rule level
+    edits, insertion / deletion of rule sets at top level and inside @media; every item kind, declared prefixes p/q,
+    the default namespace, an undeclared prefix zz"""
+    top, med, inner = addresses(start)
+    targets = top[:1] + inner[:1]
+    ops = []
+    news = [T("t", "p:p", "x"), T("a", "p:p", "x"), T("n", "p:p", "x"), T("u", "p:p", "*"), T("t", "p:q", "x"),
+            T("t", "-", "e"), T("t", "e", "b"), T("t", "p:zz", "x")]
+    for a in targets:
+        for it in news:
+            ops.append(("ssel", a, 0, it))
+        ops += [("xsel", a, 0, T("t", "p:p", "y")), ("xsel", a, 1, T("n", "p:q", "y")), ("xsel", a, 0, T("a", "p:zz", "y")),
+                ("lsel", a, (T("t", "-", "e"),)), ("lsel", a, (T("a", "p:p", "z"), T("t", "*", "c"))),
+                ("rsel", a, (T("n", "p:q", "z"), T("t", "-", "e"))), ("rsel", a, (T("t", "p:zz", "z"), T("t", "-", "e"))),
+                ("asel", a, T("t", "p:p", "x")), ("asel", a, T("t", "-", "e")), ("asel", a, T("u", "p:zz", "*")),
+                ("dsel", a, 0), ("dstyle", a)]
+    at = top[0][1] if top else 0
+    ops += [("istyle", (T("t", "p:p", "w"),), None), ("istyle", (T("a", "p:q", "w"), T("t", "-", "e")), at),
+            ("istyle", (T("t", "-", "e"),), 0), ("istyle", (T("n", "p:zz", "w"),), None),
+            ("istyle", (T("t", "e", "b"),), 9)]
+    for m in med[:1]:
+        ops += [("minner", m, (T("n", "p:p", "v"),), 0), ("minner", m, (T("t", "-", "e"), T("u", "p:q", "*")), None),
+                ("minner", m, (T("t", "p:zz", "v"),), None), ("minner", m, (T("t", "e", "b"),), 7)]
+    return ops
+
+
+def unused_declaration(start):
+    """some @namespace declaration of the sheet is used by no selector (by the spec resolver)"""
+    decl = {}
+    for st in start:
+        if st[0] == "N":
+            decl[st[1]] = st[2]
+        elif st[0] in ("S", "M"):
+            break
+    used = set(p.split(":", 2)[1][1:-1] for p in spec_pairs(start) if p.split(":", 2)[1].startswith("'"))
+    return bool(set(decl.values()) - used)
+
+
+NS_CRITICAL = [("del", ""), ("del", P), ("del", Q), ("delr", 0), ("delr", 1), ("set", "", U1), ("addo", Q, U1),
+               ("set", "r", U3), ("addo", P, U2)]
+
+
 def gen_cases(ctx, thorough):
     starts = start_sheets(thorough)
     small = op_alphabet(True)
     full = op_alphabet(False)
     cases = []
     for s in starts:
-        cases.append((s, ()))
+        cases.append((s, (), "all"))          # every preference row on every start sheet
         for o in full:
             cases.append((s, (o,)))
+    for s in (starts if thorough else starts[::2]):
+        for o in sel_alphabet(s):
+            cases.append((s, (o,)))
     n1 = len(cases)
-    sub = starts if thorough else [s for i, s in enumerate(starts) if i % 6 == 0]
+    sub = starts if thorough else [s for i, s in enumerate(starts) if i % 8 == 0]
     for s in sub:
         for o1, o2 in itertools.product(small, repeat=2):
             cases.append((s, (o1, o2)))
+    # mixed histories: a selector-side operation around a namespace operation (the in-use check and the mapping
+    # must follow the CURRENT selectors)
+    # quick: every sheet with a declared but unused URI (there the in-use status can flip) + every 25th other
+    flip = [s for s in starts if unused_declaration(s)]
+    for s in (starts if thorough else flip[::2] + [s for i, s in enumerate(starts) if i % 25 == 7 and s not in flip]):
+        sel = sel_alphabet(s)
+        for o1, o2 in itertools.product(sel, NS_CRITICAL):
+            cases.append((s, (o1, o2)))
+            cases.append((s, (o2, o1)))
+        if thorough:
+            for o1, o2 in itertools.product(sel[:25], repeat=2):
+                cases.append((s, (o1, o2)))
     if thorough:
         for s in [s for i, s in enumerate(starts) if i % 9 == 0]:
             for t in itertools.product(small[:20], repeat=3):
                 cases.append((s, t))
     n_exh = len(cases)
     rng = ctx.rng
-    for _ in range(20000 if thorough else 1500):
+    for n in range(20000 if thorough else 2000):
         s = rng.choice(starts)
+        sel = sel_alphabet(s)
         k = rng.randint(3, 7)
         ops = []
         for _ in range(k):
-            kind = rng.choice(["set", "set", "del", "addo", "inso", "addt", "inst", "delr"])
+            kind = rng.choice(["set", "set", "del", "addo", "inso", "addt", "inst", "delr", "sel", "sel", "sel", "sel"])
+            if kind == "sel" and sel:
+                ops.append(rng.choice(sel))
+                continue
+            kind = "del" if kind == "sel" else kind
             p = rng.choice(["", P, Q, "r", "t"])
             u = rng.choice([U1, U2, U3])
             i = rng.randint(0, 5)
             ops.append({"set": ("set", p, u), "del": ("del", p), "addo": ("addo", p, u), "inso": ("inso", p, u, i),
                         "addt": ("addt", p, u), "inst": ("inst", p, u, i), "delr": ("delr", i)}[kind])
-        cases.append((s, tuple(ops)))
+        cases.append((s, tuple(ops), n))      # one preference row (rotating) on the last state
     return cases, n1, n_exh
 
 
 def _norm(case):
-    return ([tuple(x) if x[0] != "S" and x[0] != "M" else
-             ("S", [tuple(i) for i in x[1]]) if x[0] == "S" else ("M", [[tuple(i) for i in r] for r in x[1]])
-             for x in case[0]], tuple(tuple(o) for o in case[1]))
+    def tup(x):
+        return tuple(tup(i) for i in x) if isinstance(x, (list, tuple)) else x
+    return (tup(case[0]), tup(case[1]))
 
 
 # ----------------------------------------------------------------------------------------------- run
@@ -535,7 +823,7 @@ def run(ctx):
     res = ctx.pool_map(impl_run, cases, procs=6, chunksize=64)
     counters = {}
     mism, states, nontrivial, hist = [], 0, set(), {}
-    model = ctx.run_binary(binary, [enc_case(*c) for c in cases], shards=6) if binary else None
+    model = ctx.run_binary(binary, [enc_case(c[0], c[1]) for c in cases], shards=6) if binary else None
     for idx, (case, (lines, obs)) in enumerate(zip(cases, res)):
         states += len(lines)
         for o in obs[1:]:
@@ -544,6 +832,9 @@ def run(ctx):
             nontrivial.add(idx)
         if model is not None:
             m = model[idx].split("\t")
+            if not plain_bodies(case[0]):      # the model has no declaration blocks: its re-parse keeps every rule set
+                m = [x.rsplit(" # ", 1)[0] for x in m]
+                lines = [x.rsplit(" # ", 1)[0] for x in lines]
             if m != lines:
                 k = next((j for j, (x, y) in enumerate(itertools.zip_longest(m, lines)) if x != y), 0)
                 mism.append({"css": start_text(case[0]), "ops": [list(o) for o in case[1]], "step": k,
@@ -565,8 +856,11 @@ def run(ctx):
         starts = start_sheets(True)
         alpha = op_alphabet(False)
         while time.time() - t0 < (300 if thorough else 55):
-            batch = [(rng.choice(starts), tuple(rng.choice(alpha) for _ in range(rng.randint(0, 4))))
-                     for _ in range(1500)]
+            batch = []
+            for n in range(1500):
+                s0 = rng.choice(starts)
+                both = alpha + sel_alphabet(s0) * 2
+                batch.append((s0, tuple(rng.choice(both) for _ in range(rng.randint(0, 4))), n))
             for case, (lines, obs) in zip(batch, ctx.pool_map(impl_run, batch, procs=6, chunksize=64)):
                 for what, i, feats in oracle(case, obs):
                     short = _short(what)
@@ -577,7 +871,7 @@ def run(ctx):
                         while changed:
                             changed = False
                             for j in range(len(ops)):
-                                cand = (case[0], tuple(ops[:j] + ops[j + 1:]))
+                                cand = (case[0], tuple(ops[:j] + ops[j + 1:]), "all")
                                 _, ob2 = impl_run(cand)
                                 if any(_short(w2) == short and
                                        not ctx.match_known(short + " :: features=%s" % ",".join(f2))
@@ -619,7 +913,7 @@ def replay(ctx, path):
     for v in rep.get("violations", []):
         w = v["witness"]
         case = _norm((w["start"], w["ops"]))
-        lines, obs = impl_run(case)
+        lines, obs = impl_run(case + ("all",))       # every preference row on every state
         fails = [what for what, i, feats in oracle(case, obs)]
         print("replay %s\n  ops %s\n  final state: %s\n  -> %s" % (json.dumps(w.get("css")), w["ops"],
                                                                  lines[-1] if lines else None,
